@@ -244,6 +244,9 @@ def verify_function(contract, sources=None, timeout_ms=10000):
         status, backend, dt, model = prover.prove(q.pc, goal)
         if os.environ.get("PYVC_DEBUG"):
             print("  [%s] %s %.2fs %s" % (status, name, dt, backend), flush=True)
+            if os.environ.get("PYVC_DEBUG") == "2" and status == "refuted" and model is not None:
+                print("      goal:", goal)
+                print("      model:", str(model)[:6000], flush=True)
         v = Verdict(name, status, backend, dt)
         if status == "refuted":
             v.model_text = model_summary(model, info) if model is not None else None
